@@ -79,7 +79,7 @@ Section Inst.
   Qed.
 
   (* ---------------- C06 ---------------- *)
-  Notation ekey := (fun ev : @event value => fst (fst ev)).
+  Notation ekey := (@ev_key value).
 
   (* a fresh segment of the model (batch or eager, any observed schedule) never executes an
      interrupt-before node *)
